@@ -371,7 +371,8 @@ def relation_new(model, R):
         want = [('x', 1, 'y'), ('y', 0, 'x')]
     R.check(got == want, 'WIRING', f, calls[0] if calls else f.node, 'families paired crosswise, each with its own position in the tuple',
             'x._pair_with(self, 0, y); y._pair_with(self, 1, x)', str(got))
-    R.returns(f, 'self', 'WIRING', 'returns the paired relation', expand=False)
+    made = src(news[0].targets[0]) if news and len(news[0].targets) == 1 else 'self'
+    R.returns(f, made, 'WIRING', 'returns the paired relation', expand=False)
 
 
 def api_routes(model, R):
